@@ -1,5 +1,5 @@
 CONSTANTS
-  Sample = 3
+  Sample = 1
   SimDepth = 0
 INIT Init
 NEXT Next
